@@ -53,7 +53,7 @@ def run(ctx):
     required = ["fact_sweep_threshold", "fact_transaction_helper_shape", "fact_rollback_deletes_created_did",
                 "fact_nuts_not_found_is_uncommitted", "fact_web_commit_cannot_fail", "fact_version_is_latest_plus_one",
                 "fact_sweep_handles_whole_transaction", "fact_deactivation_renders_as_published", "fact_rollback_loop_wiring", "fact_method_manager_wiring",
-                "fact_latest_is_highest_version", "fact_create_checks_subject_inside_transaction", "old_iscommitted_blocks_sweep", "old_rollback_blocks_retry", "old_sweep_splits_transaction"]
+                "fact_latest_is_highest_version", "fact_create_checks_subject_inside_transaction", "fact_change_records_saved_inside_first_transaction", "old_iscommitted_blocks_sweep", "old_rollback_blocks_retry", "old_sweep_splits_transaction"]
     required += REQUIRED_DEEP
     for r in required:
         if not any(t.endswith("Props." + r) for t in thms):
@@ -138,7 +138,7 @@ def run(ctx):
         for k, (op, o) in enumerate(zip(w["ops"], obs)):
             if op["op"] == "do":
                 stats["op:" + op["kind"]] += 1
-                stats["fault:" + op.get("fault", "none") + (str(op.get("k", 0)) if op.get("fault") == "stop" else "")] += 1
+                stats["fault:" + op.get("fault", "none") + (str(op.get("k", 0)) if op.get("fault") in ("stop", "logerr", "logstop") else "")] += 1
                 stats["result:" + o[0].split(":")[0] + (":" + o[0].split(":")[1] if ":" in o[0] else "")] += 1
             # O1 all DIDs of a subject move together; O7 one DID per method
             for sname, s in o[3].items():
@@ -157,6 +157,8 @@ def run(ctx):
                                 report("C13:versions-not-consecutive", f"subject {sname} event {k}: {d[2]}", w)
         # P2/P3: no panic; List / Exists agree with ListDIDs
         for k, (op, o) in enumerate(zip(w["ops"], obs)):
+            if o[0] == "hang":
+                report("C13:hang", f"event {k} ({op.get('kind', op['op'])}) did not return within 20 s (fault {w['ops'][k-1].get('fault') if k else None} before it)", w)
             if o[0].startswith("panic:"):
                 report("C13:panic", f"event {k} ({op.get('kind', op['op'])}) panicked: {o[0][:120]}", w)
             if o[4] != "ok":
@@ -229,6 +231,8 @@ def run(ctx):
             nuts_enabled = "nuts" in w["methods"]
             order = bad_op.get("order", [])
             published_all = (not nuts_enabled) or (bad_op.get("fault") == "stop" and "nuts" in order[:bad_op.get("k", 0)])
+            if bad_op.get("fault") in ("logerr", "logstop"):
+                published_all = False   # the first transaction never committed: nothing may remain, whatever the methods
             if fired:
                 stats["cut:" + ("kept" if published_all else "abandoned")] += 1
             if fired and published_all and bad_op.get("fault") == "stop":
@@ -299,7 +303,8 @@ def run(ctx):
     ctx.cov["distinct_nontrivial"] = len(distinct)
     ctx.cov["traces_validated_against_impl"] = len(impl) - len(bad)
     ctx.cov["rule"] = ("operation sequences (create, add/update/delete service, add key, deactivate; 1-2 subjects; methods nuts+web / nuts / web), 3 fixed + random ones; "
-                       "for every operation of a sequence and every cut (did:nuts commit fails; stop before the k-th Commit call, k = 0..#methods, the last = before the clean-up transaction): "
+                       "for every operation of a sequence and every cut (did:nuts commit fails; stop before the k-th Commit call, k = 0..#methods, the last = before the clean-up transaction; "
+                       "DB error / process stop at the k-th did_change_log write inside the first transaction): "
                        "a 'quiet' world (fault, early sweep, +70 s, sweep, retry, rest, sweep) and for stops a 'busy' world (sequence continues at once, sweep last), plus the fault-free world. "
                        "Every event is observed through ListDIDs / Resolve / FindServices / version numbers / did_change_log and key_reference counts / the didstore. "
                        "distinct_nontrivial = distinct worlds (event lists without map order)")
@@ -401,4 +406,5 @@ def wiring_leg(ctx):
 REQUIRED_DEEP = ["uniform_versions", "versions_consecutive", "versions_consecutive_monotone", "subject_unique", "all_or_nothing",
                  "failed_commit_restores", "retry_enabled", "cfgNow_fixed", "stopped_operation_resolved",
                  "abandoned_keys_unpublished_partial", "abandoned_keys_unpublished",
-                 "create_check_and_write_are_one_step", "non_atomic_create_breaks_subject_unique"]
+                 "create_check_and_write_are_one_step", "non_atomic_create_breaks_subject_unique",
+                 "first_transaction_is_atomic", "versions_without_change_records_are_never_rolled_back"]
